@@ -18,17 +18,22 @@ func init() {
 					jobs = append(jobs, J("H_C11_rt", o, "fmt", fmts[f], "fx", fx))
 				}
 			}
-			jobs = append(jobs, J("H_C11_rt", o, "fmt", fmts["e"], "w", 1), J("H_C11_rt", o, "fmt", fmts["b"], "w", 1), J("H_C11_rt", o, "fmt", fmts["b"], "w", 1, "px", 7),
-				J("H_C11_rt", o, "fmt", fmts["g"], "w", 1, "elo", -6, "ehi", 23), J("H_C11_rt", o, "fmt", fmts["m"], "w", 1, "elo", -6, "ehi", 23))
+			// one word, every digit pattern; exponent ranges are job parameters (the exponent's digit
+			// count multiplies the number of paths)
+			jobs = append(jobs, J("H_C11_rt", o, "fmt", fmts["e"], "w", 1, "elo", -2, "ehi", 2), J("H_C11_rt", o, "fmt", fmts["e"], "w", 1, "elo", 2147483646, "ehi", 2147483647),
+				J("H_C11_rt", o, "fmt", fmts["e"], "w", 1, "elo", -2147483648, "ehi", -2147483647),
+				J("H_C11_rt", o, "fmt", fmts["b"], "w", 1, "elo", -1, "ehi", 1), J("H_C11_rt", o, "fmt", fmts["b"], "w", 1, "px", 7, "elo", 100, "ehi", 100),
+				J("H_C11_rt", o, "fmt", fmts["g"], "w", 1, "elo", -5, "ehi", -3), J("H_C11_rt", o, "fmt", fmts["g"], "w", 1, "elo", 20, "ehi", 22), J("H_C11_rt", o, "fmt", fmts["m"], "w", 1, "elo", 0, "ehi", 1))
 			if tier == "thorough" {
-				jobs = append(jobs, J("H_C11_rt", o, "fmt", fmts["E"], "w", 1), J("H_C11_rt", o, "fmt", fmts["p"], "w", 1), J("H_C11_rt", o, "fmt", fmts["G"], "w", 1, "elo", -6, "ehi", 23),
-					J("H_C11_rt", o, "fmt", fmts["f"], "w", 1, "elo", -3, "ehi", 21), J("H_C11_rt", o, "fmt", fmts["g"], "w", 1), J("H_C11_rt", o, "fmt", fmts["e"], "w", 2), J("H_C11_rt", o, "fmt", fmts["b"], "w", 2, "px", 30))
+				jobs = append(jobs, J("H_C11_rt", o, "fmt", fmts["e"], "w", 1), J("H_C11_rt", o, "fmt", fmts["E"], "w", 1, "elo", -30, "ehi", 30), J("H_C11_rt", o, "fmt", fmts["p"], "w", 1, "elo", -3, "ehi", 3),
+					J("H_C11_rt", o, "fmt", fmts["g"], "w", 1, "elo", -6, "ehi", 23), J("H_C11_rt", o, "fmt", fmts["m"], "w", 1, "elo", -6, "ehi", 23), J("H_C11_rt", o, "fmt", fmts["G"], "w", 1, "elo", -6, "ehi", 23),
+					J("H_C11_rt", o, "fmt", fmts["f"], "w", 1, "elo", -3, "ehi", 3), J("H_C11_rt", o, "fmt", fmts["f"], "w", 1, "elo", 18, "ehi", 21))
 			}
 			return jobs
 		},
 		Bounds: map[string]string{
-			"quick":    "x of one word (19 digits, every digit pattern incl. trailing zeros), every sign: format e with the full int32 exponent range; g and MarshalText with exponents -6..23 (both the %e and the %f branch); b (prec 19 and 7); zeros and infinities for all of e E f g G p b and MarshalText. Parse(Append(x, fmt, -1)) into a receiver of 19 digits yields the same form, sign, exponent and mantissa value with accuracy Exact; for e/E/p exactly MinPrec significant digits are printed.",
-			"thorough": "plus E, p, G, f (exponents -3..21), g with every exponent, two-word mantissas for e and b.",
+			"quick":    "x of one word (19 digits, every digit pattern incl. trailing zeros), every sign: format e with exponents -2..2 and at both ends of the int32 range; g with exponents -5..-3 and 20..22 (the %e/%f decision boundaries), MarshalText with exponents 0..1; b (precision 19 and 7); zeros and infinities for all of e E f g G p b and MarshalText. Parse(Append(x, fmt, -1)) into a receiver of 19 digits yields the same form, sign, exponent and mantissa value with accuracy Exact; for e/E/p exactly MinPrec significant digits are printed.",
+			"thorough": "e with the full int32 exponent range; E (-30..30), p (-3..3), g/G/MarshalText (-6..23), f (-3..3 and 18..21).",
 		},
 		Outside:     []string{"encoding/json framing (quotes around MarshalText's output)", "mantissas above 2 words; format f outside exponents -3..21 (output length grows with the exponent)"},
 		Assumptions: []string{"strconv.AppendInt is modelled (sign and digit count case split, digits by div/mod 10); strconv.ParseInt, strings.Reader, bytes.TrimRight run from their SSA bodies", archNote},
@@ -43,6 +48,9 @@ func init() {
 			var jobs []*sym.Job
 			jobs = append(jobs, J("H_C13_fmt", o, "fmt", 'f', "P", 2, "elo", -3, "ehi", 3), J("H_C13_fmt", o, "fmt", 'f', "P", 0, "elo", -1, "ehi", 2),
 				J("H_C13_fmt", o, "fmt", 'f', "P", 3, "elo", -7, "ehi", -3), J("H_C13_fmt", o, "fmt", 'e', "P", 0, "elo", -2, "ehi", 2), J("H_C13_fmt", o, "fmt", 'E', "P", 2, "elo", 98, "ehi", 102))
+			for _, f := range []int{'e', 'f', 'g', 'G', 'p', 'b'} {
+				jobs = append(jobs, J("H_C13_zero", o, "fmt", f), J("H_C13_zero", o, "fmt", f, "P", 3))
+			}
 			if tier == "thorough" {
 				jobs = append(jobs, J("H_C13_fmt", o, "fmt", 'e', "P", 2, "elo", -3, "ehi", 3), J("H_C13_fmt", o, "fmt", 'e', "P", 18, "elo", 0, "ehi", 1), J("H_C13_fmt", o, "fmt", 'e', "P", 25, "elo", 0, "ehi", 1),
 					J("H_C13_fmt", o, "fmt", 'f', "P", 5, "elo", -8, "ehi", 8), J("H_C13_fmt", o, "fmt", 'f', "P", 20, "elo", -2, "ehi", 2), J("H_C13_fmt", o, "fmt", 'f', "P", 1, "elo", 18, "ehi", 24))
@@ -50,7 +58,7 @@ func init() {
 			return jobs
 		},
 		Bounds: map[string]string{
-			"quick":    "Append with an explicit precision, x of one word, every rounding mode and sign: %f with P in {0,2,3} and exponents -7..3 (including rounding positions at and above the leading digit), %e/%E with P in {0,2} around exponents 0 and 100 (two- vs three-digit exponent): output bytes equal the layout of the once-rounded value byte for byte.",
+			"quick":    "Append with an explicit precision, x of one word, every rounding mode and sign: %f with P in {0,2,3} and exponents -7..3 (including rounding positions at and above the leading digit), %e/%E with P in {0,2} around exponents 0 and 100 (two- vs three-digit exponent): output bytes equal the layout of the once-rounded value byte for byte. Zeros: for e f g G p b (precision -1 and 3) the text of +-0 is the same whatever exponent and buffer the zero kept from an earlier finite value.",
 			"thorough": "%e with P in {2,18,25}, %f with P in {1,5,20} and exponents up to 24.",
 		},
 		Outside:     []string{"%g/%G with an explicit precision, Format's flag/width handling (fmt.State plumbing) and the p/b formats are not covered by this check", "mantissas above one word"},
